@@ -159,7 +159,7 @@ func (e *Env) Config(proc int) *action.Configuration {
 	kc := &Client{Client: &kube.Client{Factory: f, Namespace: RelNS}, R: e.Rec, Proc: proc}
 	st := storage.Init(&WrapDriver{D: e.rawDriver(proc), R: e.Rec, Proc: proc})
 	return &action.Configuration{
-		RESTClientGetter: nil,
+		RESTClientGetter: nil, // set per operation when the chart has crds/ (installCRDs needs a RESTMapper)
 		Releases:         st,
 		KubeClient:       kc,
 		Capabilities:     chartutil.DefaultCapabilities.Copy(),
@@ -236,6 +236,8 @@ func kindKey(kind, name string) simcluster.Key {
 		return simcluster.Key{Group: "verif.example", Version: "v1", Resource: "gadgets", Namespace: RelNS, Name: name}
 	case "Job":
 		return simcluster.Key{Group: "batch", Version: "v1", Resource: "jobs", Namespace: RelNS, Name: name}
+	case "CustomResourceDefinition":
+		return simcluster.Key{Group: "apiextensions.k8s.io", Version: "v1", Resource: "customresourcedefinitions", Name: name}
 	default:
 		return simcluster.Key{Group: "", Version: "v1", Resource: "configmaps", Namespace: RelNS, Name: name}
 	}
@@ -405,8 +407,14 @@ func (e *Env) RunOp(proc, i int, s Step) (res OpResult) {
 		if err != nil {
 			return OpResult{Err: "chart: " + err.Error()}
 		}
+		if len(e.Lib[s.Chart].CRDs) > 0 {
+			cfg.RESTClientGetter = &simcluster.Getter{F: &simcluster.Factory{RT: e.Sim.Transport(proc), Namespace: RelNS}}
+		}
 		in := action.NewInstall(cfg)
 		in.ReleaseName, in.Namespace = RelName, RelNS
+		if flagB(f, "postRender") {
+			in.PostRenderer = labelPostRenderer{}
+		}
 		in.Replace = flagB(f, "replace")
 		in.Atomic = flagB(f, "atomic")
 		in.DisableHooks = flagB(f, "noHooks")
@@ -418,6 +426,7 @@ func (e *Env) RunOp(proc, i int, s Step) (res OpResult) {
 		in.SkipCRDs = flagB(f, "skipCRDs")
 		in.Force = flagB(f, "force")
 		in.Timeout = timeout
+		in.WaitStrategy = kube.StatusWatcherStrategy // the scenarios are "helm ... --wait"
 		rel, err := in.Run(ch, parseVals(s.Vals))
 		res.Rel = rel
 		if err != nil {
@@ -430,6 +439,9 @@ func (e *Env) RunOp(proc, i int, s Step) (res OpResult) {
 		}
 		up := action.NewUpgrade(cfg)
 		up.Namespace = RelNS
+		if flagB(f, "postRender") {
+			up.PostRenderer = labelPostRenderer{}
+		}
 		up.Atomic = flagB(f, "atomic")
 		up.CleanupOnFail = flagB(f, "cleanupOnFail")
 		up.DisableHooks = flagB(f, "noHooks")
@@ -442,6 +454,7 @@ func (e *Env) RunOp(proc, i int, s Step) (res OpResult) {
 		up.ResetThenReuseValues = flagB(f, "resetThenReuseValues")
 		up.Force = flagB(f, "force")
 		up.Timeout = timeout
+		up.WaitStrategy = kube.StatusWatcherStrategy
 		rel, err := up.Run(RelName, ch, parseVals(s.Vals))
 		res.Rel = rel
 		if err != nil {
@@ -456,6 +469,7 @@ func (e *Env) RunOp(proc, i int, s Step) (res OpResult) {
 		rb.DryRun = flagB(f, "dryRun")
 		rb.Force = flagB(f, "force")
 		rb.Timeout = timeout
+		rb.WaitStrategy = kube.StatusWatcherStrategy
 		if err := rb.Run(RelName); err != nil {
 			res.Err = err.Error()
 		}
@@ -465,6 +479,7 @@ func (e *Env) RunOp(proc, i int, s Step) (res OpResult) {
 		un.DisableHooks = flagB(f, "noHooks")
 		un.DryRun = flagB(f, "dryRun")
 		un.Timeout = timeout
+		un.WaitStrategy = kube.StatusWatcherStrategy
 		r, err := un.Run(RelName)
 		if r != nil {
 			res.Info = r.Info
@@ -477,6 +492,16 @@ func (e *Env) RunOp(proc, i int, s Step) (res OpResult) {
 		res.Err = "unknown op " + s.Op
 	}
 	return res
+}
+
+// labelPostRenderer stands for "a post-renderer is configured": it passes the manifest through
+// (adding a comment line), which must not make a dry run write anything.
+type labelPostRenderer struct{}
+
+func (labelPostRenderer) Run(in *bytes.Buffer) (*bytes.Buffer, error) {
+	out := bytes.NewBufferString("# post-rendered\n")
+	out.Write(in.Bytes())
+	return out, nil
 }
 
 // Run executes a whole scenario sequentially and returns its trace.
